@@ -330,7 +330,8 @@ def setup():
     basic.load_theory("misc")                     # nat, int, real, set, real intervals
     from prover import z3wrapper, sympywrapper  # noqa: F401
     assert z3wrapper.z3_loaded, "z3 is not installed"
-    assert z3wrapper.check_z3 is True, "z3wrapper.check_z3 is not True at start"
+    # the flag is part of the anchored state: its value is logged here and recorded in every event; the T clause
+    # SolverConsulted (and Z3Sound on the goals the step then accepts) judges a run with the flag off
     # harness safety only: a goal on which Z3 does not answer within the limit counts as "not solved"
     # (check() returns unknown); the limit never produces the answer "unsat"
     import z3
@@ -474,6 +475,9 @@ def z3_family():
             Rel("less_eq", Op("IF", T, Rel("less", x, y), x, y), x), Rel("equals", Op("IF", T, Rel("less", x, y), minus(y, x), minus(x, y)), c(0)),
             Rel("greater_eq", x, c(0)), Rel("greater", plus(x, c(1)), c(0)), Rel("less", x, plus(x, c(1))),
             Rel("equals", times(c(2), x), plus(x, x)), Rel("equals", minus(plus(x, y), y), x),
+            Rel("equals", minus(x, y), minus(y, x)), Op("implies", "bool", Rel("equals", minus(x, y), c(0)), Rel("equals", x, y)),
+            Op("implies", "bool", Rel("less", x, y), Rel("less", c(0), minus(y, x))), Rel("less_eq", minus(x, y), plus(minus(y, x), x)),
+            Op("disj", "bool", Rel("equals", minus(x, y), c(0)), Rel("equals", minus(y, x), c(0))),
         ]
         for a in atoms:
             gs.append(a)
